@@ -14,6 +14,7 @@ fn exec_for(prop: &str) -> Exec {
         "C12" => props::edit::exec,
         "C18" => props::matchw::exec,
         "C16" => props::windows::exec,
+        "C01" | "C02" | "C03" | "C04" => props::tok::exec,
         _ => panic!("unknown property {prop}"),
     }
 }
@@ -30,6 +31,7 @@ fn main() {
             let shard: u64 = args.get(7).map(|s| s.parse().unwrap()).unwrap_or(0);
             let nshards: u64 = args.get(8).map(|s| s.parse().unwrap()).unwrap_or(1);
             ctx::quiet_panics();
+            props::tok::set_tmp(dir);
             let mut c = Ctx::new(dir, seed, thorough, scale, shard, nshards, exec_for(prop));
             match prop {
                 "C10" => props::text::run_c10(&mut c),
@@ -38,6 +40,10 @@ fn main() {
                 "C12" => props::edit::run_c12(&mut c),
                 "C18" => props::matchw::run_c18(&mut c),
                 "C16" => props::windows::run_c16(&mut c),
+                "C01" => props::tok::run_c01(&mut c),
+                "C02" => props::tok::run_bpe(&mut c, false),
+                "C03" => props::tok::run_bpe(&mut c, true),
+                "C04" => props::tok::run_c04(&mut c),
                 _ => unreachable!(),
             }
             c.finish(dir);
